@@ -343,7 +343,17 @@ fn parse_chunker_config(
                 chunker::Config::FixedSize(*fixed_size)
             }
             (_, "RollSum") => chunker::Config::RollSum(parse_chunker_opts(cmd, matches)?),
-            (_, "BuzHash") => chunker::Config::BuzHash(parse_chunker_opts(cmd, matches)?),
+            (_, "BuzHash") => {
+                let config = parse_chunker_opts(cmd, matches)?;
+                // The buzhash chunker can not run with a window bigger than its chunks.
+                if config.window_size > config.max_chunk_size {
+                    return Err(cmd.error(
+                        ErrorKind::ValueValidation,
+                        "Rolling window size can't be bigger than the max chunk size",
+                    ));
+                }
+                chunker::Config::BuzHash(config)
+            }
             _ => unreachable!(),
         },
     )
